@@ -20,6 +20,7 @@ import lib
 from translate import formatre as tr_formatre
 from translate import formatattrs as tr_formatattrs
 from translate import formataccept as tr_formataccept
+from translate import formatloops as tr_formatloops
 
 PROP = "C17"
 
@@ -296,6 +297,7 @@ PERR_KINDS = [
     ("unexpected '{' in field name", "PUnexpectedOpen"),
 ]
 FERR_KINDS = [
+    ("cannot switch from", "FMix"),
     ("Too few arguments", "FTooFew"),
     ("Numbered argument(s)", "FUnusedNumbered"),
     ("Numbered argument", "FOutOfRange"),
@@ -415,7 +417,25 @@ def guards_format(t, m):
     return g
 
 
-F_ALPHABET = "{}0a.[]!r:x"
+F_ALPHABET = "{}0a.[]!r:x+ "  # 13 symbols ("+" and " ": int() accepts them in a number, the field-name grammar does not)
+
+
+# characters that distinguish "a plain run of decimal digits" (positional index) from everything
+# int() / str.isdigit() would also take: sign, blanks, underscore, a superscript digit (isdigit but
+# not decimal), an Arabic-Indic digit (decimal)
+NAME_ALPHABET = "01+- _a\u00b2\u0663"
+
+
+def exhaustive_field_name_cases(maxlen):
+    """every field name over NAME_ALPHABET up to maxlen, as a single field, after a numbered field,
+    inside a nested spec, and passed as a keyword"""
+    for n in range(1, maxlen + 1):
+        for tup in itertools.product(NAME_ALPHABET, repeat=n):
+            name = "".join(tup)
+            yield ("{" + name + "}", ["a", "b"], {})
+            yield ("{0} {" + name + "}", ["a", "b"], {})
+            yield ("{0:>{" + name + "}}", ["a", 5], {})
+            yield ("{" + name + "}", [], {name: "v"})
 
 
 def exhaustive_format_templates(maxlen):
@@ -462,7 +482,7 @@ def gen_format_structured(rng):
         elif m == "manual":
             name = str(rng.choice([0, 0, 0, 1, 1, 2, 3, 10]))
         else:
-            name = rng.choice(["a", "a", "b", "w", "zz", "a b", "0a"])
+            name = rng.choice(["a", "a", "b", "w", "zz", "a b", "0a", "+0", "-1", " 0", "0 ", "0_0", "1_", "\u00b2", "\u0663", "00", "+", "0x1", "1e0", "\u0661\u0660"])
         path = rng.choice(F_PATHS) if rng.random() < 0.3 else ""
         conv = rng.choice(["", "", "", "", "!r", "!s", "!a", "!x", "!"])
         spec = gen_spec_text(rng)
@@ -629,7 +649,8 @@ def safe_args(t, a):
 
 def gen_files():
     return {"FormatRe.v": tr_formatre.translate(str(lib.REPO)), "FormatAttrs.v": tr_formatattrs.translate(),
-            "FormatAccept.v": tr_formataccept.translate(str(lib.REPO))}
+            "FormatAccept.v": tr_formataccept.translate(str(lib.REPO)),
+            "FormatLoops.v": tr_formatloops.translate(str(lib.REPO))}
 
 
 def load_corpus():
@@ -724,7 +745,11 @@ def case_expr(c):
             return f"{c[1]!r} % {a}"
         return f"{c[1]!r} % ({a})"
     if c[0] == "format":
-        parts = [src_literal(x) for x in c[2]] + [f"{k}={src_literal(v)}" for k, v in c[3].items()]
+        parts = [src_literal(x) for x in c[2]]
+        if all(k.isidentifier() for k in c[3]):
+            parts += [f"{k}={src_literal(v)}" for k, v in c[3].items()]
+        elif c[3]:
+            parts.append("**" + src_literal(dict(c[3])))
         if any(p is None or p.endswith("=None") and False for p in parts):
             return None
         return f"{c[1]!r}.format({', '.join(parts)})"
@@ -846,7 +871,7 @@ def make_cases(tier, rng, stream):
             t, args, kwargs = gen_format_structured(rng)
             cases.append(("format", t, args, kwargs))
         for _ in range(3000 if tier == "quick" else 40000):
-            t = "".join(rng.choice(F_ALPHABET * 2 + " 1b٣\n") for _ in range(rng.choice([5, 6, 7, 8, 10])))
+            t = "".join(rng.choice(F_ALPHABET * 2 + " 1b٣\n+-_\u00b2") for _ in range(rng.choice([5, 6, 7, 8, 10])))
             args, kwargs = rng.choice(fargs)
             cases.append(("format", t, args, kwargs))
         return cases
@@ -859,6 +884,12 @@ def make_cases(tier, rng, stream):
             cases.append(("percent", t, scan_args[i % 4], False))
             if len(t) <= 5:
                 cases.append(("percent", t.encode("ascii"), scan_args[(i + 1) % 4], False))
+    elif kind == "fname":
+        maxlen = 3 if tier == "quick" else 5
+        for i, c in enumerate(exhaustive_field_name_cases(maxlen)):
+            if i % n != k:
+                continue
+            cases.append(("format", c[0], c[1], c[2]))
     elif kind == "fmt":
         maxlen = 4 if tier == "quick" else 6
         for i, t in enumerate(exhaustive_format_templates(maxlen)):
@@ -1280,7 +1311,7 @@ def run(tier: str, replay: str | None = None):
     proof = None
     try:
         gen = gen_files()
-    except (tr_formatre.TranslateError, tr_formataccept.TranslateError) as ex:
+    except (tr_formatre.TranslateError, tr_formataccept.TranslateError, tr_formatloops.TranslateError) as ex:
         broken_translation = str(ex)
         gen = None
     if gen is not None:
@@ -1322,7 +1353,7 @@ def run(tier: str, replay: str | None = None):
     else:
         main_cases = make_cases(tier, rng, "main")
         nsh = 1 if tier == "quick" else 6
-        jobs = [(tier, (k, j, nsh), exe, known_ids, lib.seed()) for k in ("pct", "fmt", "spec") for j in range(nsh)]
+        jobs = [(tier, (k, j, nsh), exe, known_ids, lib.seed()) for k in ("pct", "fmt", "spec", "fname") for j in range(nsh)]
     try:
         total = evaluate(main_cases, exe, known_ids, keep_direct=True)
     except RuntimeError as ex:
@@ -1433,7 +1464,7 @@ def run(tier: str, replay: str | None = None):
         input_distribution=hist,
         correspondence_mismatches=total["n_corr"],
         spec_mismatches=total["n_spec"],
-        exhaustive_template_length={"percent": (4 if tier == "quick" else 6), "format": (4 if tier == "quick" else 6), "format_spec": (2 if tier == "quick" else 4)},
+        exhaustive_template_length={"percent": (4 if tier == "quick" else 6), "format": (4 if tier == "quick" else 6), "format_spec": (2 if tier == "quick" else 4), "field_name": (3 if tier == "quick" else 5)},
     )
     rep.assumptions = ["CPython 3.12 `%` operator, str.format, format() and f-strings as oracle", "translators harness/translate/formatre.py, formatattrs.py", "extraction (ExtrOcamlBasic)"]
     return rep.finish(
